@@ -263,6 +263,7 @@ func suiteDocument(r *Rng, n int, thorough bool, o *Out) {
 		s, ts := genSchema(r, o)
 		doc := &jsonapi.Document{PrePath: prefixes[r.IntN(len(prefixes))]}
 		uniquePrimary := true
+		aliased := ""
 		// primary data
 		dataKind := r.IntN(9)
 		mixedTyped := false
@@ -315,6 +316,28 @@ func suiteDocument(r *Rng, n int, thorough bool, o *Out) {
 					uniquePrimary = false
 				}
 				seen[resKeyOf(res)] = true
+				if sc, isSC := col.(*jsonapi.SoftCollection); isSC && sc.Type != nil && r.chance(1, 3) {
+					// the caller's row buffer: a soft resource typed with the collection's own
+					// *Type, added, then written to again - the collection holds what it was
+					// given at the time of Add
+					sr := &jsonapi.SoftResource{}
+					sr.SetType(sc.Type)
+					sr.SetID(res.Get("id").(string))
+					for _, f := range mst.typ.Fields() {
+						sr.Set(f, cloneVal(res.Get(f)))
+					}
+					want := sxResView(sr)
+					sc.Add(sr)
+					other := genResOf(r, mst, o)
+					for _, f := range mst.typ.Fields() {
+						sr.Set(f, cloneVal(other.Get(f)))
+					}
+					if got := sxResView(sc.At(sc.Len() - 1)); got != want && aliased == "" {
+						aliased = "C04 element " + itoa(sc.Len()-1) + " of the primary collection shows values written to the caller's resource after Add"
+					}
+					o.stat("data.SoftCollection-row-buffer")
+					continue
+				}
 				col.Add(res)
 			}
 			doc.Data = col
@@ -639,6 +662,9 @@ func suiteDocument(r *Rng, n int, thorough bool, o *Out) {
 					break
 				}
 			}
+		}
+		if aliased != "" {
+			v.fail("C04", aliased)
 		}
 		pv := v.String()
 		o.emit(op, obs, pv)
